@@ -161,7 +161,26 @@ def main():
             if r["violated"]:
                 rep.mc_violation("DenseOnMC_%s_%d_%d" % (k, a, b), r)
             behs += bs
+    # (A) at formula level: the whole online monitor (DenseOn!UpdateC: intersection of streams, binary operator buffers, predicates,
+    # since, timed operators, constants) on formulas x signal pairs x every per-variable schedule
+    ax, ay = pred("ge", var("x"), const(2)), pred("lt", var("y"), const(2))
+    k03 = pred("le", bi("sub", const(0), const(3)), const(1))
+    FU = [ax, bi("and", ax, ay), bi("or", var("x"), var("y")), pred("ge", bi("sub", var("x"), var("y")), const(0)), un("onceT", ax, 1, 2),
+          un("histT", bi("or", ax, ay), 0, 1), bi("since", ax, ay), bi("sinceT", ax, ay, 1, 2), un("once", bi("and", ax, ay)),
+          bi("and", un("onceT", ax, 1, 1), ay), un("onceT", un("histT", ax, 0, 1), 1, 2), bi("implies", un("not", ax), un("onceT", ay, 0, 2)),
+          k03, bi("or", k03, ax), bi("xor", ax, un("hist", ay)), pred("eq", bi("add", var("x"), un("abs", var("y"))), const(1)),
+          bi("sinceT", ax, ay, 0, 2), un("histT", un("onceT", ay, 2, 2), 1, 3), bi("iff", un("onceT", ax, 0, 1), un("histT", ay, 0, 1)),
+          bi("and", bi("or", ax, ay), un("not", bi("or", ax, ay)))]
+    fsel = [FU[i] for i in sorted(rng.sample(range(len(FU)), 5))] if quick else FU
+    r = densemc.run_formulas("C05_formulas", fsel, maxt=3 if quick else 4, maxn=3, vals=(-2, 3) if quick else (-2, 1, 3), workers=12)
+    rep.add_mc("DenseOnFMC: %d formulas x signal pairs (<= 3 samples, common end <= %d) x every per-variable schedule (NoErr Mono Agree)"
+               % (len(fsel), 3 if quick else 4), r)
+    if r["violated"]:
+        rep.mc_violation("DenseOnFMC", r)
     devs = {}
+    for dev, f_ in (("constEveryUpdate", bi("or", k03, ax)), ("dropPending", un("onceT", ax, 0, 2)), ("noDedupe", un("onceT", un("histT", ax, 0, 1), 1, 2))):
+        r = densemc.run_formulas("C05_formulas_dev_" + dev, [f_], maxt=3, maxn=3, dev=[dev], workers=6, expect_violation=True)
+        devs["formula level: " + dev] = r["violated"]
     for dev, (k, a, b) in (("dropPending", ("onceT", 0, 2)), ("noDedupe", ("histT", 1, 3))):
         r, _ = densemc.run("C05_op_dev_" + dev, k, a, b, maxt=4, maxn=3, dev=[dev], workers=4, expect_violation=True)
         devs[dev] = r["violated"]
@@ -182,7 +201,9 @@ def main():
     rep.add_traces(traces, vs_, gen, dist, nontrivial_key=lambda c: c["objs"][0]["text"] + str([e["w"] for e in c["events"] if e["o"] == 1 and e["a"] == "update"]))
     rep.extra["cases_by_kind"] = {k: sum(1 for c in cases if c["kind"] == k) for k in ("untimed", "timed", "future", "two_signal")}
     rep.extra["schedules_per_case"] = 4 if quick else 6
-    return rep.finish("TLC: operator-level machine DenseOnMC (the pending-interval algorithm of once/historically[a,b], transcribed in "
+    return rep.finish("TLC: formula-level machine DenseOnFMC (operational model of the whole online monitor, DenseOn!UpdateC) over formulas x "
+                      "signals x every per-variable schedule; every update() of the generated executions below is also given to that "
+                      "model and must return exactly its batch (binding diagnostic operational_model_*); operator-level machine DenseOnMC (the pending-interval algorithm of once/historically[a,b], transcribed in "
                       "DenseOn.tla) over all signals x all chunkings incl. empty and sample-repeating batches, for 14 (operator, interval) "
                       "pairs; the behaviours TLC explored are replayed on the real OnceTimedOperation / HistoricallyTimedOperation and "
                       "validated by TraceOp (contract clauses; call-by-call equality with the model as binding diagnostic); "
